@@ -64,6 +64,12 @@ CLAIMED = {
             'stability). Tie: bit-exact correspondence of every field on random states fed straight into create_trajectory_row.',
             'hand Lean model + algebra over R, bit-exact differential run, independent-formula oracle on real rows',
             '5 C05'),
+    'C07': ('Theorems over the REGENERATED table of every PreferredUnits.<slot>(arg) coercion site: no site replaces a bare 0 by a non-zero default '
+            '(kernel-checked), and for every other idiom a bare x (0 included) is stored as x in the preferred unit = the explicit quantity; an explicit '
+            'quantity keeps its raw magnitude whatever the slot prefers. Independence of results: the model never takes the settings, and the bit-exact '
+            'correspondence runs under randomised assignments of all 15 slots. One open known finding (BCPoint(V=0)).',
+            'regenerated site table + decide, small coercion model, bit-exact differential run under random preferred units, two-assignment search',
+            '5 C07'),
     'C08': ('Theorems over the atmosphere model with regenerated constants: ISA temperature exact, pressure within 1e-4 over the troposphere '
             '(rpow/exp/log bounds), speed-of-sound constant within 1e-4, dry density within 5e-5 (compressibility bounded over the box), '
             'extrapolation law = barometric composition identity, shortcut, clamped pressure base, vacuum zero, humidity normalisation. '
